@@ -59,3 +59,10 @@ func DumpExplore(p *core.Prog) {
 		}
 	}
 }
+
+// DumpHashTables lists the maps keyed by a name's hash (maintenance).
+func DumpHashTables(p *core.Prog) {
+	for _, t := range hashKeyedNameTables(p, []string{"dv/table", "dv/dv", "fw/table", "fw/mgmt", "fw/fw", "std/sync", "std/engine/basic", "std/object"}) {
+		fmt.Printf("%-70s sites=%d lookups=%d confirmed=%d %s\n", t.ID, t.Sites, t.Lookups, t.Confirmed, t.Pos)
+	}
+}
